@@ -557,6 +557,9 @@ func TestC12(t *testing.T) {
 		if !mine(i) {
 			continue
 		}
+		if rep.OverBudget() {
+			break
+		}
 		journal("C12 cell %v", l)
 		fails, n := runC12Cell(t, l, rep, false)
 		rep.Evaluations += n
